@@ -2,7 +2,7 @@
 META = {
     "level": 'exploration',
     "technique": 'reference-bytearray oracle on the real sftpd.OverwriteableFileConsumer: exhaustive pairs of overwrites x 2-chunk download splits x relative positions on a 12-byte file, plus seeded histories of <=20 client ops interleaved with random download chunks',
-    "text": 'Executes the real OverwriteableFileConsumer (with a plain tempfile.TemporaryFile and with the real EncryptedTemporaryFile) as the SFTP file handle does: the harness plays the download producer (registerProducer/write/unregisterProducer/download_done) and the client (overwrite, set_current_size, read, when_done, close). Every read() result, get_current_size() and the temp-file contents at the moment the upload would read them (after when_done fired, and again after the last download chunk) are compared with a bytearray = original contents with the client ops applied in order. Thorough enumerates ALL ordered pairs of overwrites [a,b) within [0,14] on a 12-byte file x all 12 splits of the download into <=2 chunks x all 6 placements of the two overwrites before/between/after the chunks (complete); quick samples that space. Seeded histories add nested/adjacent/overlapping overwrites near the download frontier, truncation below/above the frontier, extension, writes beyond EOF, and reads straddling the frontier.',
+    "text": 'Executes the real OverwriteableFileConsumer (with a plain tempfile.TemporaryFile and with the real EncryptedTemporaryFile) as the SFTP file handle does: the harness plays the download producer (registerProducer/write/unregisterProducer/download_done) and the client (overwrite, set_current_size, read, when_done, close). Every read() result, get_current_size() and the temp-file contents at the moment the upload would read them (after when_done fired, and again after the last download chunk) are compared with a bytearray = original contents with the client ops applied in order. Thorough enumerates ALL ordered pairs of overwrites [a,b) within [0,14] on a 12-byte file x all 12 splits of the download into <=2 chunks x all 6 placements of the two overwrites before/between/after the chunks (complete); quick samples that space. A third family drives the real GeneralSFTPFile handle (opened read/write without FXF_TRUNC on a fake immutable node whose download is fed by hand; the close() upload is captured by a fake parent directory): writeChunk, readChunk, getAttrs and setAttrs(size=n) for n in {0, 1, size-1, size, size+1, beyond} before the first chunk, mid-download and after completion, with a write before/after and a second size change, plus seeded histories; readChunk results, the size reported by getAttrs and the bytes uploaded at close are compared with the same reference. Seeded histories add nested/adjacent/overlapping overwrites near the download frontier, truncation below/above the frontier, extension, writes beyond EOF, and reads straddling the frontier.',
     "note": 'Trusts the 20-line bytearray model and the virtual eventual-send queue (vf.env). Respects the class contract: no overwrite/set_current_size while a read Deferred is outstanding (the harness delivers download chunks until it fires); unwritten, not-yet-downloaded regions are only observed through read() (which waits) or after the download completed. Only successful downloads are modelled.',
 }
 LEVEL = "exploration"
@@ -469,6 +469,318 @@ def show_steps(steps):
     return out
 
 
+# ----------------------------------------------------------------- the SFTP file handle (GeneralSFTPFile)
+def make_handle_driver(sftpd):
+    """Driver for the real GeneralSFTPFile on a fake immutable file node whose download is fed by hand and a
+    fake parent directory that records what the close() uploads."""
+    from zope.interface import implementer
+    from twisted.internet import defer
+    from twisted.python.failure import Failure
+    from twisted.conch.ssh.filetransfer import FXF_READ, FXF_WRITE, SFTPError, FX_EOF
+    from allmydata.interfaces import IFileNode
+
+    class FakeVersion(object):
+        def __init__(self, node):
+            self.node = node
+
+        def get_size(self):
+            return len(self.node.contents)
+
+        def read(self, consumer, offset=0, size=None):
+            self.node.consumer = consumer
+            self.node.read_d = defer.Deferred()
+            return self.node.read_d
+
+    @implementer(IFileNode)
+    class FakeFileNode(object):
+        def __init__(self, contents):
+            self.contents = contents
+            self.consumer = None
+            self.read_d = None
+            self.pos = 0
+
+        def is_mutable(self):
+            return False
+
+        def is_readonly(self):
+            return True
+
+        def is_unknown(self):
+            return False
+
+        def get_size(self):
+            return len(self.contents)
+
+        def get_write_uri(self):
+            return None
+
+        def get_best_readable_version(self):
+            return defer.succeed(FakeVersion(self))
+
+        def feed(self, n):
+            chunk = self.contents[self.pos:self.pos + n]
+            self.pos += len(chunk)
+            if chunk:
+                self.consumer.write(chunk)
+            if self.pos >= len(self.contents) and not self.read_d.called:
+                self.read_d.callback(self.consumer)
+
+    class FakeParent(object):
+        def __init__(self):
+            self.uploaded = {}
+
+        def get_write_uri(self):
+            return b"URI:DIR2:fake"
+
+        def add_file(self, childname, uploadable, metadata=None):
+            d = uploadable.get_size()
+            d.addCallback(lambda size: uploadable.read(size))
+
+            def _got(chunks):
+                self.uploaded[childname] = b"".join(chunks)
+            d.addCallback(_got)
+            return d
+
+    class HandleDriver(object):
+        """Steps: ("chunk", n) ("ow", off, data)->writeChunk ("size", n)->setAttrs({'size': n})
+        ("read", off, len)->readChunk ("attrs",)->getAttrs ("pump",)"""
+
+        def __init__(self, ck, orig):
+            self.ck = ck
+            self.orig = bytes(orig)
+            self.ref = Ref(orig)
+            self.node = FakeFileNode(self.orig)
+            self.parent = FakeParent()
+            self.problems = []
+            self.trace = []
+            self.pending = []
+            self.wrote = False
+            self.fh = sftpd.GeneralSFTPFile(b"/f", FXF_READ | FXF_WRITE, None, b"c" * 16)
+            self.fh.open(parent=self.parent, childname=u"f", filenode=self.node, metadata={})
+            self.pump()
+            if self.node.consumer is None:
+                raise RuntimeError("download was not started by open()")
+            if not self.orig:
+                self.node.feed(0)
+                self.pump()
+
+        def pump(self, turns=8):
+            for _ in range(turns):
+                if not env.evq.pending():
+                    break
+                env.evq._turn()
+
+        def downloaded_all(self):
+            return self.node.pos >= len(self.orig)
+
+        def chunk(self, n):
+            if self.downloaded_all() or n <= 0:
+                return
+            self.trace.append(["chunk", self.node.pos, min(len(self.orig), self.node.pos + n)])
+            self.node.feed(n)
+            self.pump()
+
+        def settle(self):
+            self.pump()
+            guard = 0
+            while any(not r["fired"] for r in self.pending):
+                if not self.downloaded_all():
+                    self.ck.hit("handle-read-waited-for-download")
+                    self.chunk(max(1, (len(self.orig) - self.node.pos + 1) // 2))
+                else:
+                    guard += 1
+                self.pump()
+                if guard > 3:
+                    for r in self.pending:
+                        if not r["fired"]:
+                            r["fired"] = True
+                            self.problems.append(("handle-request-never-answered",
+                                                  "%s still unanswered after the download completed" % (r["what"],)))
+                    break
+            self.pending = []
+
+        def write(self, off, data):
+            self.settle()
+            self.trace.append(["writeChunk", off, off + len(data)])
+            box = []
+            self.fh.writeChunk(off, data).addBoth(box.append)
+            self.wrote = True
+            self.ref.overwrite(off, data)
+            self.pump()
+            if not box or isinstance(box[0], Failure):
+                self.problems.append(("handle-write-refused", "writeChunk(%d, %d bytes) -> %r" % (off, len(data), box)))
+
+        def set_size(self, n):
+            self.settle()
+            self.trace.append(["setAttrs", {"size": n}])
+            st = {"fired": False, "what": "setAttrs(size=%d)" % n}
+
+            def _done(res, st=st):
+                st["fired"] = True
+                if isinstance(res, Failure):
+                    self.problems.append(("handle-setattrs-refused", "setAttrs({'size': %d}) failed: %s" % (n, res.value)))
+            self.fh.setAttrs({"size": n}).addBoth(_done)
+            self.ref.set_size(n)
+            self.pending.append(st)
+            self.settle()
+            self.ck.hit("setattrs-size-through-handle")
+
+        def attrs(self):
+            expect = len(self.ref.b)
+            self.trace.append(["getAttrs"])
+            st = {"fired": False, "what": "getAttrs()"}
+
+            def _done(res, st=st):
+                st["fired"] = True
+                self.ck.mon("handle-size-oracle")
+                if isinstance(res, Failure):
+                    self.problems.append(("handle-getattrs-fails", "getAttrs() failed: %s" % (res.value,)))
+                elif res.get("size") != expect:
+                    self.problems.append(("handle-size-differs-from-reference",
+                                          "getAttrs() reports size %r, reference %d" % (res.get("size"), expect)))
+            self.fh.getAttrs().addBoth(_done)
+            self.pending.append(st)
+
+        def read(self, off, length):
+            self.trace.append(["readChunk", off, length])
+            snap = Ref(b"")
+            snap.b = bytearray(self.ref.b)
+            snap.writes = list(self.ref.writes)
+            exp = bytes(self.ref.b[off:off + length])
+            eof = off >= len(self.ref.b)
+            st = {"fired": False, "what": "readChunk(%d,%d)" % (off, length)}
+
+            def _done(res, st=st):
+                st["fired"] = True
+                self.ck.mon("handle-read-oracle")
+                if isinstance(res, Failure):
+                    if eof and res.check(SFTPError) and res.value.code == FX_EOF:
+                        return
+                    self.problems.append(("handle-read-fails", "readChunk(%d,%d) failed: %s" % (off, length, res.value)))
+                elif eof:
+                    self.problems.append(("handle-read-past-eof-returns-data",
+                                          "readChunk(%d,%d) at EOF returned %d bytes" % (off, length, len(res))))
+                elif res != exp:
+                    if len(res) != len(exp):
+                        key = "handle-read-length-differs"
+                    else:
+                        view = bytearray(snap.b)
+                        view[off:off + len(res)] = res
+                        key = "handle-" + classify(self.orig, snap, bytes(view), "read")
+                    self.problems.append((key, "readChunk(%d,%d) returned %d bytes %r, reference %d bytes %r"
+                                          % (off, length, len(res), res[:24], len(exp), exp[:24])))
+            self.fh.readChunk(off, length).addBoth(_done)
+            self.pending.append(st)
+
+        def finish(self):
+            self.settle()
+            self.attrs()
+            self.read(0, len(self.ref.b) + 7)
+            self.settle()
+            self.trace.append(["close"])
+            box = []
+            self.fh.close().addBoth(box.append)
+            self.pump()
+            while not self.downloaded_all():
+                self.chunk(max(1, (len(self.orig) - self.node.pos + 1) // 2))
+            self.pump(20)
+            if not box:
+                self.problems.append(("handle-close-never-completes", "close() unanswered after the download completed"))
+            elif isinstance(box[0], Failure):
+                self.problems.append(("handle-close-fails", "close() failed: %s" % (box[0].value,)))
+            else:
+                up = self.parent.uploaded.get(u"f")
+                if not self.wrote:
+                    # the handle only commits when writeChunk was called: a size change alone is not uploaded
+                    if up is None and bytes(self.ref.b) != self.orig:
+                        self.ck.observe("size-change-without-write-not-uploaded-at-close")
+                    self.ck.skip("close-without-any-write")
+                else:
+                    self.ck.mon("uploaded-contents-oracle")
+                    if up is None:
+                        self.problems.append(("handle-nothing-uploaded", "close() succeeded, nothing was uploaded"))
+                    elif up != bytes(self.ref.b):
+                        key = "handle-" + classify(self.orig, self.ref, up, "uploaded")
+                        self.problems.append((key, "uploaded %d bytes %r, reference %d bytes %r"
+                                              % (len(up), up[:24], len(self.ref.b), bytes(self.ref.b)[:24])))
+            return self.problems
+
+    def run_handle_history(ck, orig, steps):
+        env.evq.reset()
+        drv = None
+        try:
+            drv = HandleDriver(ck, orig)
+            for st in steps:
+                op = st[0]
+                if op == "chunk":
+                    drv.chunk(st[1])
+                elif op == "ow":
+                    drv.write(st[1], st[2])
+                elif op == "size":
+                    drv.set_size(st[1])
+                elif op == "read":
+                    drv.read(st[1], st[2])
+                elif op == "attrs":
+                    drv.attrs()
+                elif op == "pump":
+                    drv.pump(1)
+            problems = drv.finish()
+        except Exception as e:
+            import traceback
+            tb = traceback.extract_tb(e.__traceback__)
+            problems = (drv.problems if drv else []) + [("handle-raises", "unexpected %s in %s: %s"
+                                                         % (type(e).__name__, tb[-1].name, e))]
+        if env.evq.exceptions:
+            problems = problems + [("exception-in-eventual-callback", repr(env.evq.exceptions[:2]))]
+            env.evq.reset()
+        return drv, problems
+
+    return run_handle_history
+
+
+def handle_enum():
+    """Directed histories: size change to n in {0, 1, cur-1, cur, cur+1, beyond} at each phase of the download
+    (before the first chunk / mid-download / after completion), a write before or after it, a second size change."""
+    for n in (12, 300):
+        orig = bytes((i * 11 + 5) % 251 + 1 for i in range(n))
+        for phase, first in (("before-first-chunk", 0), ("mid-download", n // 3), ("after-completion", n)):
+            for target in ("0", "1", "cur-1", "cur", "cur+1", "beyond"):
+                new = {"0": 0, "1": 1, "cur-1": n - 1, "cur": n, "cur+1": n + 1, "beyond": n + 40}[target]
+                for wpos in ("write-before", "write-after", "write-at-end"):
+                    for second in (None, 0, "plus3"):
+                        steps = []
+                        if first:
+                            steps.append(("chunk", first))
+                        if wpos == "write-before":
+                            steps.append(("ow", 2, b"FRESH"))
+                        steps.append(("size", new))
+                        cur = new if wpos != "write-before" else new      # write-before is cut by the size change
+                        if wpos == "write-after":
+                            steps.append(("ow", 0, b"fresh"))
+                            cur = max(cur, 5)
+                        steps.append(("attrs",))
+                        steps.append(("chunk", max(1, n // 3)))
+                        steps.append(("read", 0, 100))
+                        if second is not None:
+                            steps.append(("size", 0 if second == 0 else cur + 3))
+                            steps.append(("attrs",))
+                        if wpos == "write-at-end":
+                            steps.append(("ow", 1, b"end"))
+                        yield orig, steps, (n, phase, target, wpos, second)
+
+
+def handle_from_history(steps, rng):
+    out = []
+    for s in steps:
+        if s[0] == "done?":
+            continue
+        out.append(s)
+        if s[0] in ("size", "ow") and rng.random() < .5:
+            out.append(("attrs",))
+    return out
+
+
+
 # ----------------------------------------------------------------- run
 def run(ck):
     from allmydata.frontends import sftpd
@@ -541,12 +853,48 @@ def run(ck):
             ck.hit("set-current-size")
         judge(drv, problems, "history", (mk[0], orig[:16], len(orig), repr(show_steps(steps))), steps, orig, mk[0],
               bool(kinds & {"ow", "size"}) and "chunk" in kinds)
+    # ---- (3) the real SFTP file handle: size changes through GeneralSFTPFile.setAttrs({'size': n})
+    run_handle_history = make_handle_driver(sftpd)
+
+    def judge_handle(drv, problems, cls, key, steps, orig):
+        for k, what in problems:
+            ck.violation(k, what, {"handle": "GeneralSFTPFile(FXF_READ|FXF_WRITE) on a %d-byte file" % len(orig),
+                                   "original": orig[:32], "steps": show_steps(steps)[:60],
+                                   "executed": (drv.trace[:80] if drv else None)})
+        ck.case(cls, key=key, nontrivial=True, sample={"original_len": len(orig), "steps": show_steps(steps)[:12]})
+
+    for hi, (orig, steps, key) in enumerate(handle_enum()):
+        if not ck.mine(hi):
+            continue
+        if not ck.more(min_cases=10 ** 9):
+            break
+        with ck.watchdog(120, "handle history"):
+            drv, problems = run_handle_history(ck, orig, steps)
+            if key[2] == "0":
+                ck.hit("handle-truncated-to-zero")
+            judge_handle(drv, problems, "handle-directed", key, steps, orig)
+    hrng = ck.rng("c39-handle")
+    nh = 1200 if ck.tier == "quick" else 8000
+    target = ck.evaluations + nh
+    j = 0
+    while j < nh and ck.more(min_cases=target):
+        j += 1
+        orig, steps = gen_history(hrng)
+        if len(orig) > 5000:
+            orig = orig[:5000]
+        steps = handle_from_history(steps, hrng)
+        with ck.watchdog(120, "handle history"):
+            drv, problems = run_handle_history(ck, orig, steps)
+            judge_handle(drv, problems, "handle-history", (orig[:16], len(orig), repr(show_steps(steps))), steps, orig)
+    ck.extra["handle_histories"] = j
     ck.extra["histories"] = i
     if i < n:
         ck.observe("history-count-cut-by-time-budget")
-    ck.require_monitor("read-oracle", "final-contents-oracle", "current-size-oracle")
+    ck.require_monitor("read-oracle", "final-contents-oracle", "current-size-oracle",
+                       "handle-read-oracle", "handle-size-oracle", "uploaded-contents-oracle")
     ck.require_reach("read-deferred-pending", "read-waited-for-download", "nested-second-overwrite-pending",
-                     "set-current-size", "done-before-last-chunk")
+                     "set-current-size", "done-before-last-chunk", "setattrs-size-through-handle",
+                     "handle-truncated-to-zero", "handle-read-waited-for-download")
 
 
 # MUST_CATCH  (selftest/breaks_c39.py; run on a base = /repo/src + the two proposed fixes, quick tier)
